@@ -6,6 +6,11 @@
   (Method, Host, URL.Path), the connection's flag, the authenticator `auth`, the random padding
   and the masquerade handler `masq : Req → Resp` (a PARAMETER: any handler).
   Stream / datagram level: Hy.Model.Auth (the C01 model), every interleaving.
+
+  ASSUMED (tied by the `masq` stream, which sends header sections of 3 KiB .. 100 KiB, and by
+  `shape_h3_server_fields`): net/http + quic-go/http3 deliver EVERY request whose header section is
+  below the library's limit (http.DefaultMaxHeaderBytes = 1 MiB, as no MaxHeaderBytes is configured)
+  to ServeHTTP; `serve` is therefore size-agnostic.
 -/
 import Hy.Proofs.Masq
 import Hy.Gen.AuthShape
@@ -39,6 +44,12 @@ theorem shape_response_writes :
        "h3sHandler.ServeHTTP | w.WriteHeader | if(SHAPE) > if(ok)",
        "h3sHandler.masqHandler | h.config.MasqHandler.ServeHTTP | if(h.config.MasqHandler != nil)",
        "h3sHandler.masqHandler | http.NotFound | else(h.config.MasqHandler != nil)"] := rfl
+
+/-- the per-connection http3.Server is configured with the handler and the stream dispatcher only: no
+    MaxHeaderBytes (or any other limit) below the library default that would make quic-go answer a
+    request itself, before ServeHTTP and the masquerade handler see it -/
+theorem shape_h3_server_fields :
+    Gen.AuthShape.h3ServerFields = ["serverImpl.handleClient | Handler,StreamDispatcher"] := rfl
 
 /-! ### request level -/
 
